@@ -25,7 +25,10 @@ def universe(size):
     pool = [P.EVar(0), P.MetaVar(0), P.neg(P.EVar(0)), P._and(P.EVar(0), P.EVar(1)), P.MetaVar(1, e_fresh=(P.EVar(0),)),
             P.Exists(0, P.EVar(0)), P.bot(), P._or(P.MetaVar(0), P.EVar(1)),
             P.Mu(0, P.App(P.EVar(0), P.SVar(0))), P.Mu(1, P.App(P.EVar(1), P.SVar(1))), P.Exists(1, P.App(P.EVar(0), P.EVar(1))),
-            P.ESubst(P.MetaVar(0), P.EVar(0), P.App(P.Symbol('c'), P.EVar(0))), P.SSubst(P.MetaVar(0), P.SVar(0), P.EVar(1))]
+            P.ESubst(P.MetaVar(0), P.EVar(0), P.App(P.Symbol('c'), P.EVar(0))), P.SSubst(P.MetaVar(0), P.SVar(0), P.EVar(1)),
+            # pairs that print identically but differ in freshness (stale verdicts keyed by the printed form)
+            P.neg(P.MetaVar(0, e_fresh=(P.EVar(0),))), P.neg(P.MetaVar(0)), P.neg(P.Symbol('x0')), P._and(P.Symbol('x1'), P.MetaVar(1, e_fresh=(P.EVar(1),))),
+            P._and(P.EVar(1), P.MetaVar(1))]
     for a in pool:
         for b in pool:
             C.append(P.Implies(a, b))
